@@ -343,7 +343,7 @@ def main():
         finally:
             shutil.rmtree(d, ignore_errors=True)
             shutil.rmtree(out, ignore_errors=True)
-    if a.seeded and a.all_props:
+    if a.seeded and a.all_props and not a.only:
         name = 'sensitivity_seeded_matrix.json'
         with open(os.path.join(VERIF, name), 'w') as f:
             json.dump({'scale': SCALE, 'results': results}, f, indent=1)
